@@ -47,6 +47,8 @@ impl Default for KeyIdMemstore {
 impl KeyIdStorage for KeyIdMemstore {
   async fn insert_key_id(&self, key: MethodDigest, value: KeyId) -> KeyIdStorageResult<()> {
     let mut key_id_store: RwLockWriteGuard<'_, KeyIdStore> = self.key_id_store.write().await;
+    #[cfg(identity_rs_verif)]
+    crate::verif_hooks::sched_point("keyid.insert.locked").await;
     if key_id_store.contains_key(&key) {
       return Err(KeyIdStorageError::new(KeyIdStorageErrorKind::KeyIdAlreadyExists));
     }
@@ -66,6 +68,8 @@ impl KeyIdStorage for KeyIdMemstore {
 
   async fn delete_key_id(&self, key: &MethodDigest) -> KeyIdStorageResult<()> {
     let mut key_id_store: RwLockWriteGuard<'_, KeyIdStore> = self.key_id_store.write().await;
+    #[cfg(identity_rs_verif)]
+    crate::verif_hooks::sched_point("keyid.delete.locked").await;
     key_id_store
       .remove(key)
       .ok_or_else(|| KeyIdStorageError::new(KeyIdStorageErrorKind::KeyIdNotFound))?;
